@@ -21,6 +21,8 @@ DECIDED = ('(a) _body_read compares the running size with max_body_size inside t
            'most limit + one buffer bytes are requested before the 413.')
 DECIDED_MORE = ('Also: count-down form of the limit with an `is not None` guard; the limit argument of _body_read is the configured one on every path; the spill pass still feeds the multipart scanner.')
 DECIDED = DECIDED + ' ' + DECIDED_MORE
+DECIDED_R6 = ('Round 6: strict limit comparison; a supplied setting is used whenever the key is present; the one-shot spill flag is armed before the loop; a declared length above the threshold is refused before reading.')
+DECIDED = DECIDED + ' ' + DECIDED_R6
 NOT_DECIDED = ('framing overhead of pathological chunking (1-byte chunks); memory used by the interpreter for the objects '
                'themselves.')
 ASSUMPTIONS = ['wsgi.input.read(n) returns at most n bytes', 'TemporaryFile keeps its content on disk']
